@@ -80,3 +80,24 @@ def run_contracts(rep, contracts, table=None, tier="quick", replayers=None, pid=
                     o["detail"] = "S-class obligation refuted without a replayable input: proof broke, property undecided"
             rep.undecided.append({"name": label, "reason": "S-class refuted (proof scaffolding)"})
     return results, agg
+
+
+def purity_probe(rep, name, calls, signature):
+    """run-time companion of the frame obligations: `calls` is a list of (description, thunk, arrays); each thunk calls the real
+    function on the given float64 arrays, which must be byte-identical afterwards.  Returns the number of evaluations."""
+    import numpy as np
+    n = 0
+    for desc, thunk, arrays in calls:
+        before = [a.tobytes() for a in arrays]
+        shapes = [(a.shape, a.dtype.str) for a in arrays]
+        try:
+            thunk()
+        except Exception as ex:      # the call itself failing is reported by the value checks of the property, not here
+            continue
+        n += 1
+        if any(a.tobytes() != b or (a.shape, a.dtype.str) != s for a, b, s in zip(arrays, before, shapes)):
+            rep.violation("%s wrote into an array passed to it (%s): the caller's data differ after the call" % (name, desc), signature,
+                          {"input": {"call": desc, "arrays_before": [np.frombuffer(b, dtype=a.dtype).reshape(s[0]).tolist() for a, b, s in zip(arrays, before, shapes)],
+                                     "arrays_after": [a.tolist() for a in arrays]}})
+            break
+    return n
